@@ -150,4 +150,70 @@ def oracle(ctx, budget=1, replay=None, hints=None):
                     why = 'malformed firmware retraction command'
                 if not ok and len(fails) < 10:
                     fails.append(O.fail('generated command %r is not well-formed plain-decimal G-code: %s' % (o, why), st, k, 'C07:shape', p))
-    return dict(evaluations=n, failures=fails, samples=[], distribution=dict(programs=len(progs), generated_commands=n))
+    # handleGcode called directly with the command as written and its normalised code (what a host with a case-insensitive
+    # code detection passes): lower-case firmware retraction inside a region and the owed recovery after it
+    for cmds in ([('g10 S1', 'G10'), ('G1 X30 Y30', 'G1'), ('g11', 'G11')], [(' g10  s1', 'G10'), ('g1 x30 y30', 'G1'), ('G11 S1', 'G11'), ('g1 x31 y31 e2', 'G1')],
+                 [('g10', 'G10'), ('g11', 'G11'), ('G1 X30 Y30 E2', 'G1')]):
+        h = impl.new_handlers(R, ext=dict(genprog.DEFAULT_EXT))
+        impl.run(h, ['G28', 'G1 X5 Y5 E1 F3000', 'G1 X15 Y15'])
+        for cmd, code in cmds:
+            r = h.handleGcode(cmd, code, None)
+            if isinstance(r, (list, tuple)):
+                for o in r:
+                    if not isinstance(o, str) or o == cmd:
+                        continue
+                    n += 1
+                    ok = reader.read(o) is not None and (not o.upper().startswith(('G10', 'G11')) or not re.search(r'[Gg]1[01].*[Gg]1[01]', o))
+                    ok = ok and (o.upper().startswith(('G10', 'G11')) or reader.well_formed(o)[0])
+                    if not ok and len(fails) < 10:
+                        fails.append(dict(what='handleGcode(%r, %r) generated %r: not one well-formed command' % (cmd, code, o), signature='C07:shape-direct',
+                                          case=dict(commands=['G28', 'G1 X5 Y5 E1 F3000', 'G1 X15 Y15'] + [c for c, _ in cmds])))
+    # the offline path (StreamProcessor) accepts spellings the live hook never sees: lower-case codes, leading zeros, blanks
+    import io
+    nsp = 0
+    for _ in range(25 * budget):
+        p = genprog.Gen(ctx.rng, addregions=False, at=False, layers=1, style=ctx.rng.choice(['firmware', 'firmware', 'eonly', None])).program()
+        h = impl.new_handlers(p['regions'], g90e=p['g90e'], enter=p['enter'], exit_=p['exit'], ext=p['ext'])
+        sp = impl.StreamProcessor(io.BytesIO(b''), h)
+        scripts = (p['enter'] or []) + (p['exit'] or [])
+        inputs = set()
+        for ev in p['events']:
+            if ev[0] != 'cmd':
+                continue
+            line = ev[1]
+            k = ctx.rng.random()
+            if line.startswith(('G10', 'G11')) and k < 0.6:
+                line = line.lower() if k < 0.3 else 'g' + line[1:]
+            elif k < 0.25:
+                line = line[0].lower() + line[1:]
+            elif k < 0.35:
+                line = line.lower()
+            elif k < 0.45 and len(line) > 1 and line[1].isdigit():
+                line = line[0] + '0' + line[1:]
+            inputs.add(line.strip())
+            try:
+                out = sp.process_line(line + '\n')
+            except Exception as e:
+                fails.append(dict(what='process_line(%r) raised %s: %s' % (line, type(e).__name__, e), signature='C07:exception', case=dict(line=line)))
+                break
+            if out is None or out == line + '\n':
+                continue
+            for o in out.split('\n'):
+                o = o.strip()
+                if not o or o in scripts or o in inputs or any(o == e[1] for e in p['events'] if e[0] == 'cmd'):
+                    continue
+                co = reader.read(o)
+                if co is not None and co.code in p['ext'] and p['ext'][co.code] in ('first', 'last'):
+                    continue            # a deferred command re-issued (normalised) -- not synthesised
+                canon = lambda t: re.sub(r'^([GMT])0+(?=\d)', r'\1', t.strip().upper().replace(' ', ''))
+                if canon(o) == canon(line):
+                    continue            # the input line itself, normalised
+                nsp += 1
+                ok, why = reader.well_formed(o, set('ABCDEFGHIJKLMNOPQRSTUVWXYZ') if (co is not None and p['ext'].get(co.code) == 'merge') else ())
+                if o.startswith(('G10', 'G11')):
+                    ok = reader.read(o) is not None and not re.search(r'[Gg]1[01].*[Gg]1[01]', o)
+                    why = 'malformed firmware retraction command'
+                if not ok and len(fails) < 10:
+                    fails.append(dict(what='offline filter generated %r from %r: %s' % (o, line, why), signature='C07:shape-offline', case=dict(line=line, output=out)))
+    n += nsp
+    return dict(evaluations=n, failures=fails, samples=[], distribution=dict(programs=len(progs), generated_commands=n, offline_generated=nsp))
